@@ -13,7 +13,7 @@ func init() {
 	register(&Property{
 		ID:      "C10",
 		Run:     runC10,
-		Explain: "(1) cache validity gate: every `…, true` return of Client.GetCachedTicket is dominated by now.After(e.StartTime) ∧ now.Before(e.EndTime) on the entry it returns, or by a successful renewTicket under now.Before(e.RenewTill), and returns ticket and key of one entry value; (2) pairing: the arguments of every cache.addEntry call and the (ticket, key) returned by GetServiceTicket are rooted at one reply variable and same-typed time arguments match the callee's parameter names; addSession/session.update take every field from one decrypted part; (3) referral bound: the recursive calls of ASExchange and TGSExchange pass referral+1 and are dominated by `referral > 5 ⇒ error`; (4) configuration reaches the request: in NewASReq and tgsReq the last store to each request field on every path to the success return derives from the configuration field the property names (ticket_lifetime→Till, renew_lifetime→RTime+RENEWABLE, enctype lists→EType, forwardable/proxiable/canonicalize→flags 1/3/15, noaddresses→Addresses), so a later overwrite is reported; KDC option numbers equal RFC 4120 §5.4.1; (5) pre-authentication: PA-ENC-TIMESTAMP is encrypted with key usage 1 under the key for the negotiated etype and replaces an existing one; the TGS-REQ authenticator checksums the marshalled request body with usage 6 under the session key and is sent in an AP-REQ built from that TGT and key.",
+		Explain: "(1) cache validity gate: every `…, true` return of Client.GetCachedTicket is dominated by now.After(e.StartTime) ∧ now.Before(e.EndTime) on the entry it returns, or by a successful renewTicket under now.Before(e.RenewTill), and returns ticket and key of one entry value; (2) pairing: the arguments of every cache.addEntry call and the (ticket, key) returned by GetServiceTicket are rooted at one reply variable and same-typed time arguments match the callee's parameter names; addSession/session.update take every field from one decrypted part; (3) referral bound: the recursive calls of ASExchange and TGSExchange pass referral+1 and are dominated by `referral > 5 ⇒ error`; (4) configuration reaches the request: in NewASReq and tgsReq the last store to each request field on every path to the success return derives from the configuration field the property names (ticket_lifetime→Till, renew_lifetime→RTime+RENEWABLE, enctype lists→EType, forwardable/proxiable/canonicalize→flags 1/3/15, noaddresses→Addresses), so a later overwrite is reported; KDC option numbers equal RFC 4120 §5.4.1; (5) pre-authentication: PA-ENC-TIMESTAMP is encrypted with key usage 1 under the key for the negotiated etype and replaces an existing one; the TGS-REQ authenticator checksums the marshalled request body with usage 6 under the session key and is sent in an AP-REQ built from that TGT and key. Added: the session is keyed by the realm component of krbtgt/REALM; same-typed results handed back together are bound to variables of their own names at every call site (syntax-tree rule); nothing writes the TGS-REQ body after a call that checksums it.",
 		NotDecided: []string{
 			"behaviour over operation histories and KDC topologies; renewal timing (runtime histories)",
 			"well-formedness of the encodings sent (C13)",
